@@ -516,7 +516,8 @@ func (p *program) isGenerated(f *ast.File) bool {
 
 func (p *program) getFilename(f *ast.File) string {
 	// See https://github.com/golang/go/issues/24498.
-	return filepath.Base(p.fset.Position(f.Pos()).Filename)
+	// The name of the file itself: a //line directive must not turn lib.go into a test file.
+	return filepath.Base(p.fset.PositionFor(f.Pos(), false).Filename)
 }
 
 func (p *program) shortenLocation(loc string) string {
